@@ -24,6 +24,7 @@ import Drivers.Quality
 import Drivers.Unit
 import Drivers.Kexact
 import Drivers.SmoothInterp
+import Drivers.InterpPack
 import Drivers.Rcb
 import Drivers.Ugrid
 import Drivers.GatherMeshb
@@ -63,6 +64,7 @@ def main (args : List String) : IO UInt32 := do
   | "unit" :: rest => Drivers.Unit.run rest
   | "kexact" :: rest => Drivers.Kexact.run rest
   | "smoothinterp" :: rest => Drivers.SmoothInterp.run rest
+  | "interppack" :: rest => Drivers.InterpPack.run rest
   | "rcb" :: rest => Drivers.Rcb.run rest
   | "ugrid" :: rest => Drivers.Ugrid.run rest
   | "gathermeshb" :: rest => Drivers.GatherMeshb.run rest
